@@ -24,7 +24,7 @@ D = ctypes.c_double
 # close encounter, corpus/C09/mercurius_integrate_hang.json) must not hang the check: ctypes releases the
 # GIL, so a thread can see the stall; it is an infrastructure failure (exit 2), not a C09 verdict
 import threading, time as _time
-_HEART = {"t": _time.time(), "ctx": "", "limit": 240.0}
+_HEART = {"t": _time.time(), "ctx": "", "limit": 3000.0}     # generous while lake may wait for the shared lock
 
 
 def beat(ctx):
@@ -914,6 +914,13 @@ def replay_mercurius(c, W, exe, ncases, coarse=False):
             # wide, light systems: no close encounters (the encounter branch is static C, not replayable)
             system["particles"] = [p if i == 0 else (p[0] * 0.01,) + p[1:] for i, p in enumerate(system["particles"])]
         ops = gen_ops(rng, rng.randint(3, 9) if not coarse else rng.randint(8, 16))
+        # the user sets ri_mercurius.recalculate_r_crit_this_timestep mid-run (mostly while a half kick is pending)
+        ops2 = []
+        for o_ in ops:
+            ops2.append(o_)
+            if o_ == "s" and rng.chance(0.3):
+                ops2.append("g")
+        ops = ops2
         if "s" not in ops:
             ops.append("s")
         safe = int(rng.chance(0.35))
@@ -964,6 +971,9 @@ def replay_mercurius(c, W, exe, ncases, coarse=False):
                 W.lib.reb_simulation_synchronize(ctypes.byref(A))
             elif op == "r":
                 W.lib.reb_simulation_energy(ctypes.byref(A))
+            elif op == "g":
+                A.ri_mercurius.recalculate_r_crit_this_timestep = 1
+                dim("user sets recalculate_r_crit_this_timestep mid-run (MERCURIUS)")
             elif op == "f":
                 A.ri_mercurius.recalculate_coordinates_this_timestep = 1
             elif op == "p":
@@ -1757,6 +1767,11 @@ def history_search(c, W, cfgs):
             s_.add(m=extra[0], x=extra[1], y=extra[2], z=extra[3], vx=extra[4], vy=extra[5], vz=extra[6])
         elif name == "particle removed":
             s_.remove(s_.N - 1)
+        elif name == "flag: recalculate_coordinates set by the user":
+            s_.ri_whfast.recalculate_coordinates_this_timestep = 1
+            s_.ri_mercurius.recalculate_coordinates_this_timestep = 1
+        elif name == "flag: recalculate_r_crit set by the user":
+            s_.ri_mercurius.recalculate_r_crit_this_timestep = 1
         elif name.startswith("integrator switched"):
             old = s_.integrator
             s_.integrator = "leapfrog"
@@ -1788,7 +1803,14 @@ def history_search(c, W, cfgs):
     for label, integ, mk, has_keep in pick:
         fam = label.split()[0]
         beat("history_search " + label)
-        for name in ("dt changed", "particle added", "particle removed", "integrator switched, flags set", "integrator switched, reset_integrator"):
+        names = ["dt changed", "particle added", "particle removed", "integrator switched, flags set", "integrator switched, reset_integrator"]
+        # the documented recalculation flags set mid-run WITHOUT a synchronize (a half step is pending): WHFast and
+        # MERCURIUS synchronise by themselves before they recalculate; SABA does not (recorded only, see notes)
+        if integ in ("whfast", "mercurius"):
+            names.append("flag: recalculate_coordinates set by the user")
+        if integ == "mercurius":
+            names.append("flag: recalculate_r_crit set by the user")
+        for name in names:
             rng = c.rng.fork()
             system = tweak(W, gen_system(rng, physics=True), integ, label, "histories")
             if len(system["particles"]) < 3 and name == "particle removed":
@@ -1797,19 +1819,20 @@ def history_search(c, W, cfgs):
                 continue
             last = system["particles"][-1]
             extra = (0.0 if (system["N_active"] != -1) else 1e-6,) + tuple(v * 1.9 if k < 3 else v * 0.7 for k, v in enumerate(last[1:]))
+            presync = not name.startswith("flag:")
             ca = do(W.sim(system, integ, mk("safe")), name, True, extra)
-            cu = do(W.sim(system, integ, mk("unsafe")), name, True, extra)
+            cu = do(W.sim(system, integ, mk("unsafe")), name, presync, extra)
             err = rel(ca, cu)
             tol = 1e-10
             if integ == "eos":
                 tol = 1e-3      # EOS: truncation level (no halved-dt yardstick for a history that changes dt / N)
             c.count(("history", label, name))
-            dim("history: " + name + " after synchronize")
+            dim("history: " + name + (" after synchronize" if presync else " while unsynchronised"))
             worst[fam + ": " + name] = max(worst.get(fam + ": " + name, 0.0), err)
             if not err <= tol:
                 c.violation("history:%s:%s" % (fam, name.split(",")[0]),
-                            "%s: 7 steps (unsafe), synchronize, %s, 7 steps, synchronize differs from the same history in safe mode by %.3g relative"
-                            % (label, name, err),
+                            "%s: 7 steps (unsafe), %s%s, 7 steps, synchronize differs from the same history in safe mode by %.3g relative"
+                            % (label, "synchronize, " if presync else "(no synchronize) ", name, err),
                             {"integrator": integ, "label": label, "system": system, "history": name, "relative_difference": err})
             # the same without the synchronize: the user's responsibility, recorded only
             try:
@@ -2043,6 +2066,8 @@ REQUIRED_DIMS = [
     "additional_forces (position dependent)", "additional_forces (velocity dependent)", "heartbeat (read-only) during integrate",
     "history: dt changed after synchronize", "history: particle added after synchronize", "history: particle removed after synchronize",
     "history: integrator switched, flags set after synchronize", "history: integrator switched, reset_integrator after synchronize",
+    "history: flag: recalculate_coordinates set by the user while unsynchronised", "history: flag: recalculate_r_crit set by the user while unsynchronised",
+    "user sets recalculate_r_crit_this_timestep mid-run (MERCURIUS)",
     "save / copy / pickle restore mid-run, continued", "archive restore mid-run (getSimulation snapshot/close/exact)",
     "explicit synchronize", "user edits of particles / flags between steps", "close encounters (MERCURIUS)",
     "centre of mass offset and moving", "hyperbolic body", "N > 128 (allocation boundary)"]
@@ -2077,6 +2102,8 @@ def run(c):
                       "physics theorems assume exact group laws of the primitives (true in exact arithmetic, to rounding in IEEE)",
                       "WHFast512 is not compiled on this host (no AVX512): not covered",
                       "variational particles / MEGNO, additional forces, collisions are outside the model"]
+    _HEART["limit"] = 240.0
+    beat("footprints")
     footprints(c, W, exe)
     replay(c, W, exe, 8000 if c.thorough else 60, "whfast")
     replay(c, W, exe, 5000 if c.thorough else 40, "saba")
